@@ -47,6 +47,12 @@ Fixpoint lit (p s : str) : option str :=
   | _ :: _, [] => None
   end.
 
+(** one-scalar literal; [opt(literal(c))] never fails *)
+Definition lit1 (c : N) (s : str) : option str :=
+  match s with x :: r => if x =? c then Some r else None | [] => None end.
+Definition opt_lit1 (c : N) (s : str) : str :=
+  match lit1 c s with Some r => r | None => s end.
+
 Fixpoint str_eqb (a b : str) : bool :=
   match a, b with
   | [], [] => true
